@@ -29,7 +29,9 @@ contract("abs:Step.reset", trusted=True, params={"self": "ref:Step"}, pos_params
 contract(M + "copy_steps", props=P, params={"steps": "seq:ref:Step"}, result="seq:ref:Step",
          ensures={"a-new-list-of-new-step-objects-in-the-same-order":
                   "is_fresh(result) and len(result) == len(steps) and "
-                  "forall(lambda k: implies(0 <= k < len(steps), is_fresh(result[k]) and copy_of(result[k]) is steps[k]))"})
+                  "forall(lambda k: implies(0 <= k < len(steps), is_fresh(result[k]) and copy_of(result[k]) is steps[k]))",
+                  "the-copies-are-distinct-objects":
+                  "forall(lambda j, k: implies(0 <= j < k and k < len(result), result[j] is not result[k]))"})
 contract(M + "reset_steps", props=P, params={"steps": "seq:ref:Step"}, result="seq:ref:Step",
          requires={"distinct-step-objects": "forall(lambda j, k: implies(0 <= j < k and k < len(steps), steps[j] is not steps[k]))"},
          modifies=["each(steps).status", "each(steps).hook_failed", "each(steps).duration", "each(steps).exception",
